@@ -75,6 +75,7 @@ def generate(seed, run, tier):
         ops.append(op)
         if op['op'] == 'backward_only' and rs.chance(0.7):
             ops.append({'op': 'opt_step', 'which': op['which'], 'lr': op['lr']})
+    ops = sched.add_mode_scopes(cfg, ops, Stream(seed, ID, run, 'mixed_mode'))
     if sys_pos is not None:
         blk = run_ // 48
         ob = {'op': SYSTEMATIC_OBS[blk % len(SYSTEMATIC_OBS)]}
